@@ -22,6 +22,15 @@ theorem isCyclic_complete (nodes : List Pred) (es : Edges) (htgt : ∀ e ∈ es,
 theorem tight_iff_acyclic (p : Program) : isTight p = true ↔ ∀ v, ¬ Path (positiveEdges p) v v :=
   isTight_iff p
 
+/-- What the private-recursion check is for (proved in Proofs/PrivateUnique.lean, restated in
+    Props/C02 as `cannot_produce_public_part`): without private recursion the completed definitions of
+    the private predicates determine their extents. -/
+theorem private_recursion_is_exact (p : Program) (priv : List Pred)
+    (htgt : ∀ e ∈ privateEdges p priv, e.2 ∈ p.preds.filter (· ∈ priv)) :
+    isCyclic (p.preds.filter (· ∈ priv)) (privateEdges p priv) = true ↔
+      ∃ v ∈ p.preds.filter (· ∈ priv), Path (privateEdges p priv) v v :=
+  isCyclic_iff _ _ htgt
+
 /-- Hence: a program reported as *not* tight really has a positive dependency cycle. -/
 theorem not_tight_has_cycle (p : Program) (h : isTight p = false) :
     ∃ v ∈ p.preds, Path (positiveEdges p) v v := by
